@@ -236,6 +236,13 @@ func appendParamRequiredValidation(validation *string, isPointer bool, paramPass
 		}
 	}
 
+	// A leading "omitempty" makes the validator skip everything after it for an absent value - "required" must come first
+	for _, tag := range tags {
+		if tag == "omitempty" {
+			return "required," + *validation
+		}
+	}
+
 	// Append "required" to the validation string
 	return *validation + ",required"
 }
